@@ -107,7 +107,7 @@ def check_case(case):
             else:
                 from cocoasm.virtualfiles.virtual_file import VirtualFile, VirtualFileType
                 from cocoasm.virtualfiles.source_file import SourceFile, SourceFileType
-                td = tempfile.mkdtemp(prefix="c15_")
+                td = common.mkdtemp(prefix="c15_")
                 path = os.path.join(td, "t.dsk")
                 cur = None
             while steps < 90:
